@@ -63,9 +63,9 @@ func wsCheckWire(out []byte, sent []c16Sent) {
 
 func VerifC16_Writes() {
 	max := 400
-	t := &sonic.VerifTransport{Concrete: true, MaxWSegs: vf.Bound("wsegs", 2, 3), SplitLimit: vf.Bound("split-limit", 2, 8)}
+	t := &sonic.VerifTransport{Concrete: true, MaxWSegs: vf.Bound("wsegs", 2, 3), SplitLimit: vf.Bound("split-limit", 2, 2)}
 	s := wsNewStream(t, max)
-	W := vf.Bound("writes", 2, 3)
+	W := vf.Bound("writes", 2, 2)
 	var sent []c16Sent
 	vf.Unwind(600)
 	for w := 0; w < W; w++ {
